@@ -281,6 +281,33 @@ func cmdCheck(args []string) int {
 		}
 	}
 
+	// A counterexample may depend on Go's randomised map iteration order (the
+	// engine explores fixed orders): retry unreproduced violations natively.
+	if !*noNative {
+		for attempt := 0; attempt < 7; attempt++ {
+			byPkg := map[string][]string{}
+			for _, p := range pend {
+				if p.sample {
+					continue
+				}
+				if nr := native[p.path]; nr != nil && nr.Error == "" && !violationReproduced(p.v, nr) {
+					byPkg[p.pkg] = append(byPkg[p.pkg], p.path)
+				}
+			}
+			if len(byPkg) == 0 {
+				break
+			}
+			for pkg, files := range byPkg {
+				rs, _ := runNative(*repo, work, ovFile, pkg, files)
+				for _, r := range rs {
+					if r.Error == "" {
+						native[r.File] = r
+					}
+				}
+			}
+		}
+	}
+
 	violLines := 0
 	knownLines := 0
 	unconfirmed := 0
@@ -314,21 +341,7 @@ func cmdCheck(args []string) int {
 			validated++
 			continue
 		}
-		reproduced := false
-		if nr != nil && nr.Error == "" {
-			switch p.v.Kind {
-			case "assert":
-				for _, f := range nr.Failed {
-					if f == p.v.Msg {
-						reproduced = true
-					}
-				}
-			case "panic":
-				reproduced = nr.Panic != ""
-			case "hang":
-				reproduced = nr.Hang || strings.Contains(nr.Panic, "deadlock")
-			}
-		}
+		reproduced := nr != nil && nr.Error == "" && violationReproduced(p.v, nr)
 		if *noNative {
 			reproduced = true
 		}
@@ -494,6 +507,22 @@ func cmdCheck(args []string) int {
 		return 2
 	}
 	return 0
+}
+
+func violationReproduced(v *Violation, nr *nativeResult) bool {
+	switch v.Kind {
+	case "assert":
+		for _, f := range nr.Failed {
+			if f == v.Msg {
+				return true
+			}
+		}
+	case "panic":
+		return nr.Panic != ""
+	case "hang":
+		return nr.Hang || strings.Contains(nr.Panic, "deadlock")
+	}
+	return false
 }
 
 func firstLine(s string) string {
